@@ -330,17 +330,20 @@ def defer():
                 ts = _delay(p).total_seconds()
 
                 if ts <= 300.0:
-                    # two events of one node can be due in the same pass
-                    if not any(job is t for job in que):
-                        que.append(t)
-                        que.sort(key=lambda i: i.get('level'))
-                    t.set('status', State.waiting)
-                    t.set('event', 'Periodic timer')
-
                     if _is_asp(t):
                         t.get('todo').add('__all__')
                     else:
                         t.get('todo').update(dawgie.db.targets())
+
+                    # two events of one node can be due in the same pass, and
+                    # without known targets there is nothing to queue
+                    if t.get('todo') and not any(job is t for job in que):
+                        que.append(t)
+                        que.sort(key=lambda i: i.get('level'))
+
+                    if t.get('todo'):
+                        t.set('status', State.waiting)
+                        t.set('event', 'Periodic timer')
 
                     log.debug(
                         'defer() - moving task %s to the job queue', t.tag
